@@ -305,7 +305,26 @@ type Msg struct {
 	Data []byte
 }
 
-type SweepSvc struct{}
+// SweepSvc keeps the byte arguments it is given (unless the server runs with NoCopy, whose contract
+// forbids that) and says at the end of the workload whether they are still what they were.
+type SweepSvc struct {
+	keep bool
+	mu   sync.Mutex
+	kept [][]byte
+	sums [][32]byte
+}
+
+func (s *SweepSvc) changed() int {
+	s.mu.Lock()
+	defer s.mu.Unlock()
+	n := 0
+	for i, b := range s.kept {
+		if sha256.Sum256(b) != s.sums[i] {
+			n++
+		}
+	}
+	return n
+}
 
 func specReply(m *Msg) Msg {
 	h := sha256.Sum256(append([]byte(m.Text), m.Data...))
@@ -320,6 +339,12 @@ func (s *SweepSvc) Do(req *Msg, res *Msg) error {
 	return nil
 }
 func (s *SweepSvc) DoB(req *[]byte, res *[]byte) error {
+	if s.keep {
+		s.mu.Lock()
+		s.kept = append(s.kept, *req)
+		s.sums = append(s.sums, sha256.Sum256(*req))
+		s.mu.Unlock()
+	}
 	if len(*req) > 0 && (*req)[0] == 'F' {
 		return errors.New("handler says no")
 	}
@@ -362,7 +387,8 @@ func runSweepOne(e *Env, dir string, k int, c sweepCfg) []string {
 	srv.SetContextBuffer(c.shared)
 	srv.SetNoCopy(c.snocopy)
 	srv.SetBufferSize(c.buf)
-	srv.RegisterName("Sweep", &SweepSvc{})
+	svc := &SweepSvc{keep: !c.snocopy}
+	srv.RegisterName("Sweep", svc)
 	opts := &rpc.Options{Network: c.network, Codec: c.body, HeaderEncoder: c.header, ClientBufferSize: c.buf}
 	lret := make(chan error, 1)
 	go func() { lret <- srv.ListenWithOptions(addr, opts) }()
@@ -387,6 +413,15 @@ func runSweepOne(e *Env, dir string, k int, c sweepCfg) []string {
 		conn.SetDirectIO(true)
 	}
 	sizes := []int{0, 10, 127, 128, 1000, 70000, 10, 1500000, 3}
+	// and messages just below, at and just above the configured buffer size
+	for _, d := range []int{-40, -12, -3, 0, 5} {
+		if c.buf+d > 0 {
+			sizes = append(sizes, c.buf+d)
+		} else {
+			sizes = append(sizes, 7)
+		}
+	}
+	sizes = append(sizes, 20, 30, 40) // further traffic: what was kept earlier must survive it
 	for i, n := range sizes {
 		data := bytes.Repeat([]byte{byte('a' + i)}, n)
 		if c.body == "bytes" {
@@ -438,6 +473,7 @@ func runSweepOne(e *Env, dir string, k int, c sweepCfg) []string {
 	}
 	out = append(out, fmt.Sprintf("unknown:err=%v", err))
 	out = append(out, fmt.Sprintf("ping:err=%v", conn.Ping()))
+	out = append(out, fmt.Sprintf("kept-arguments-changed:%d", svc.changed()))
 	conn.Close()
 	srv.Close()
 	select {
@@ -449,7 +485,7 @@ func runSweepOne(e *Env, dir string, k int, c sweepCfg) []string {
 
 func refTranscript(body string) []string {
 	var out []string
-	for i := 0; i < 9; i++ {
+	for i := 0; i < 17; i++ {
 		if i == 4 {
 			if body == "bytes" {
 				out = append(out, "4:err=handler says no")
@@ -460,7 +496,7 @@ func refTranscript(body string) []string {
 			out = append(out, fmt.Sprintf("%d:ok", i))
 		}
 	}
-	out = append(out, "unknown:err=can't find service Sweep.Nope", "ping:err=<nil>")
+	out = append(out, "unknown:err=can't find service Sweep.Nope", "ping:err=<nil>", "kept-arguments-changed:0")
 	return out
 }
 
@@ -478,15 +514,16 @@ func runOpt(work string) {
 	nets := []string{"unix", "tcp", "inproc", "http"}
 	hdrs := []string{"", "pb", "code", "json"}
 	bodies := []string{"json", "bytes", "xml"}
-	bufs := []int{512, 65536, 1 << 20}
+	bufs := []int{512, 65536, 1 << 20, 100, 1000, 4096, 70000}
 	for k := 0; k < n; k++ {
 		r := e.Rng
-		c := sweepCfg{network: nets[k%4], header: hdrs[(k/4)%4], body: bodies[(k/2)%3], buf: bufs[k%3],
+		c := sweepCfg{network: nets[k%4], header: hdrs[(k/4)%4], body: bodies[(k/2)%3], buf: bufs[k%7],
 			poll: r.Intn(3) == 0, spipe: r.Intn(2) == 0, sdirect: r.Intn(3) == 0, shared: r.Intn(3) == 0, snocopy: r.Intn(4) == 0,
 			cpipe: r.Intn(3) == 0, cdirect: r.Intn(3) == 0}
 		if c.network == "inproc" || c.network == "http" {
 			c.poll = false // netpoll needs a real file descriptor
 		}
+		e.inflight(map[string]interface{}{"config": fmt.Sprintf("%+v", c), "seed": e.Seed, "what": "the configuration sweep's workload under this configuration"})
 		got := runSweepOne(e, dir, k, c)
 		want := refTranscript(c.body)
 		e.count("sweep", fmt.Sprintf("%s-%s-%s-%d-%v%v%v%v%v-%v%v", c.network, c.header, c.body, c.buf, c.poll, c.spipe, c.sdirect, c.shared, c.snocopy, c.cpipe, c.cdirect))
@@ -498,7 +535,7 @@ func runOpt(work string) {
 		}
 	}
 	optSetBufferSize(e, dir)
-	e.Res.Rule = "(a) all 216 shapes of Options (each of Network/Codec/HeaderEncoder empty / a registered name / an unregistered name, each constructor function present or not): the components chosen by DialWithOptions and by ListenWithOptions, observed through marker constructors, compared with the model's two resolutions, and a call between the two ends; (b) seeded sweep of network {unix,tcp,inproc,http} x header {default,pb,code,json} x body {json,bytes,xml} x buffer {512,64K,1M} x server {poll,pipelining,directIO,context buffer,NoCopy} x client {pipelining,directIO}, each running the same workload (sizes 0..1.5 MB, a failing call, an unknown method, a ping) whose transcript must equal the reference; non-trivial = distinct configurations"
+	e.Res.Rule = "(a) all 216 shapes of Options (each of Network/Codec/HeaderEncoder empty / a registered name / an unregistered name, each constructor function present or not): the components chosen by DialWithOptions and by ListenWithOptions, observed through marker constructors, compared with the model's two resolutions, and a call between the two ends; (b) seeded sweep of network {unix,tcp,inproc,http} x header {default,pb,code,json} x body {json,bytes,xml} x buffer {512,64K,1M,100,1000,4096,70000} x server {poll,pipelining,directIO,context buffer,NoCopy} x client {pipelining,directIO}, each running the same workload (sizes 0..1.5 MB and around the buffer size, a failing call, an unknown method, a ping; byte arguments kept by the handler re-verified at the end) whose transcript must equal the reference; non-trivial = distinct configurations"
 	names := writeCases(work, "From Coq Require Import List ZArith. Import ListNotations. From RPC Require Import RunOpt. From RPC.Opt Require Import Resolve.", "ocase", cases, 300)
 	e.Res.ModelCases = len(cases)
 	e.Res.Extra["case_files"] = names
